@@ -11,7 +11,9 @@
 (* Series / frames that are views into one shared buffer at every offset / stride (ViewsOf)    *)
 (* next to arrays that own the same cells, and the look-alikes of a value in which a missing-   *)
 (* value marker None / NaN / NaT is replaced by another one (Miss).  x and y are concrete       *)
-(* descriptors; the clauses speak about the values Norm(x), Norm(y).                            *)
+(* descriptors; the clauses speak about the values Norm(x), Norm(y).  A third block UX x UX:     *)
+(* look-alikes that Python's own == / numpy's tolerant comparisons would let through - container *)
+(* type mismatches at depth (Wraps), numbers that are close but not equal (Nudge).               *)
 EXTENDS Eq, TLC, Json, SequencesExt
 CONSTANTS Wide, Nest
 
@@ -153,14 +155,49 @@ MissBaseW == {VLst(<<None, I(1)>>), VTup(<<None>>), VDict(<<<<"a", None>>>>), VS
               VFrm("object", RI2, AB, <<None, I(1), None, VStr("a")>>), VArr("object", <<1, 2>>, <<None, I(1)>>), VDict(<<<<"k", VSer("object", <<I(0)>>, <<None>>)>>>>)}
 MissVar == UNION {Miss(u) : u \in MissBase \cup (IF Wide THEN MissBaseW ELSE {})}
 
+\* ---- a third block: look-alikes that Python's / numpy's own comparisons would let through ---------
+\* (a) values that Python's == calls equal although the container types differ (a dict and a dict subclass, a
+\*     scalar and a 0-d / one-cell array), put at depth 1 and 2 inside lists, dict values and tuples: "False
+\*     whenever container types differ" holds at every depth, where list == list would not see it;
+\* (b) numbers that are close but not equal (1000000 / 1000001, 1 / 1 + 2^-17, 0 / 2^-27: inside the default
+\*     tolerances of np.allclose / np.isclose / pandas.testing) in every carrier of floats.
+Wraps(v) == {VLst(<<v>>), VDict(<<<<"a", v>>>>), VTup(<<I(0), VLst(<<v>>)>>)}
+           \cup (IF Wide THEN {VTup(<<v>>), VLst(<<v, v>>), VSub("Dict", <<<<"a", v>>>>), VArr("object", <<1>>, <<v>>), VDict(<<<<"a", VDict(<<<<"a", v>>>>)>>>>)} ELSE {})
+LenientBase  == {I(1), VArr("int64", <<>>, <<I(1)>>), VArr("int64", <<1>>, <<I(1)>>), VDict(<<<<"a", I(1)>>>>), VSub("Dict", <<<<"a", I(1)>>>>)}
+LenientBaseW == {NpS("int64", I(1)), VArr("float64", <<1, 1>>, <<F(1, 1)>>), VSub("dictattr", <<<<"a", I(1)>>>>), VLst(<<I(1)>>), VTup(<<I(1)>>),
+                 VSer("int64", <<I(0)>>, <<I(1)>>), VBool(TRUE), VArr("bool", <<1>>, <<VBool(TRUE)>>)}
+DeepVar == UNION {Wraps(v) : v \in LenientBase \cup (IF Wide THEN LenientBaseW ELSE {})}
+\* the float leaves of v nudged, one by one or together
+NearOf(f) == CASE f = F(1000000, 1) -> F(1000001, 1) [] f = F(1, 1) -> F(131073, 131072) [] f = F(0, 1) -> F(1, 134217728) [] OTHER -> f
+RECURSIVE Nudge(_)
+SeqNudge(q) == SeqsOver([i \in 1..Len(q) |-> Nudge(q[i])])
+Nudge(v) ==
+    CASE Tag(v) = "f"  -> {v, NearOf(v)}
+      [] Tag(v) = "np" -> {NpS(Pay(v)[1], w) : w \in Nudge(Pay(v)[2])}
+      [] Tag(v) \in {"t", "l"} -> {<<Tag(v), q>> : q \in SeqNudge(Pay(v))}
+      [] Tag(v) = "m" -> {VDict([i \in 1..Len(q) |-> <<Pay(v)[i][1], q[i]>>]) : q \in SeqNudge([i \in 1..Len(Pay(v)) |-> Pay(v)[i][2]])}
+      [] Tag(v) = "a" -> {VArr(Pay(v)[1], Pay(v)[2], q) : q \in SeqNudge(Pay(v)[3])}
+      [] Tag(v) = "S" -> {VSer(Pay(v)[1], ix, q) : ix \in SeqNudge(Pay(v)[2]), q \in SeqNudge(Pay(v)[3])}
+      [] Tag(v) = "F" -> {VFrm(Pay(v)[1], Pay(v)[2], Pay(v)[3], q) : q \in SeqNudge(Pay(v)[4])}
+      [] OTHER -> {v}
+NearBase  == {F(1000000, 1), VArr("float64", <<1>>, <<F(1000000, 1)>>), VArr("float64", <<2>>, <<F(1, 1), F(0, 1)>>),
+              VSer("float64", <<I(0)>>, <<F(1000000, 1)>>), VFrm("float64", <<I(0)>>, <<VStr("a")>>, <<F(1000000, 1)>>)}
+NearBaseW == {NpS("float64", F(1000000, 1)), NpS("float32", F(1000000, 1)), VLst(<<F(1000000, 1)>>), VDict(<<<<"a", F(1, 1)>>>>), VArr("float64", <<>>, <<F(1000000, 1)>>),
+              VArr("float32", <<1>>, <<F(1000000, 1)>>), VArr("float64", <<1, 2>>, <<F(1000000, 1), F(0, 1)>>), VArr("object", <<1>>, <<F(1000000, 1)>>),
+              VSer("int64", <<F(0, 1), F(1000000, 1)>>, <<I(1), I(2)>>), VSer("float64", RI2, <<F(1, 1), VNaN(0)>>), VFrm("float64", RI2, <<VStr("a")>>, <<F(0, 1), F(1000000, 1)>>)}
+NearVar == UNION {Nudge(v) : v \in NearBase \cup (IF Wide THEN NearBaseW ELSE {})}
+           \cup {VArr("int64", <<1>>, <<I(1000000)>>), VArr("int64", <<1>>, <<I(1000001)>>)} \cup (IF Wide THEN {I(1000000), I(1000001)} ELSE {})
+UX   == DeepVar \cup NearVar
+
 UV   == OrdVar \cup ViewVar \cup MissVar
-UAll == U \cup UV
+UAll == U \cup UV \cup UX
 NU   == {Norm(u) : u \in UAll}             \* the values of both blocks
 NX   == Norm(x)
 NY   == Norm(y)
 
-Init == ((x \in U /\ y \in U) \/ (x \in UV /\ y \in UV)) /\ s = <<>> /\ done = FALSE
+Init == ((x \in U /\ y \in U) \/ (x \in UV /\ y \in UV) \/ (x \in UX /\ y \in UX)) /\ s = <<>> /\ done = FALSE
 InitVar == x \in UV /\ y \in UV /\ s = <<>> /\ done = FALSE       \* the block of realisation variants alone
+InitLook == x \in UX /\ y \in UX /\ s = <<>> /\ done = FALSE      \* the block of look-alikes alone
 Eval == done = FALSE /\ done' = TRUE /\ UNCHANGED <<x, y, s>>
 \* S2C generator: the pair and what the statement pins for it - ifT / ifF name the clause the
 \* code violates if it answers True / False ("" = that answer is admitted)
@@ -173,7 +210,9 @@ SeqU == {<<>>, <<None>>, <<I(1), I(2)>>, <<VNaN(2), VStr("a")>>, <<VLst(<<I(1)>>
          <<VSub("Dict", <<<<"a", I(1)>>>>), VFrm("int64", RI2, <<VStr("a")>>, <<I(1), I(2)>>), NpS("float32", VNaN(9))>>,
          <<None, Dab>>, <<Dab2, VLst(<<Dab>>), VDictO(<<2, 1>>, <<<<"a", I(1)>>, <<"b", I(2)>>>>)>>,
          <<W(1, <<2>>, <<1>>), W(2, <<2>>, <<1>>)>>, <<VSerV(RI2, W(1, <<2>>, <<1>>)), VArr("object", <<2>>, <<VNaN(8), I(1)>>)>>,
-         <<VSer("object", <<I(0), I(1), I(2)>>, <<VNaN(8), F(1, 1), VStr("a")>>), VFrm("object", RI2, <<VStr("a")>>, <<VNaT, F(2, 1)>>)>>}
+         <<VSer("object", <<I(0), I(1), I(2)>>, <<VNaN(8), F(1, 1), VStr("a")>>), VFrm("object", RI2, <<VStr("a")>>, <<VNaT, F(2, 1)>>)>>,
+         <<VLst(<<VSub("Dict", <<<<"a", I(1)>>>>)>>), VLst(<<VArr("int64", <<>>, <<I(1)>>)>>), VDict(<<<<"a", VArr("int64", <<1>>, <<I(1)>>)>>>>)>>,
+         <<VArr("float64", <<1>>, <<F(1000001, 1)>>), F(1000001, 1), VSer("float64", <<I(0)>>, <<F(1000001, 1)>>)>>}
 InitIn == x \in UAll /\ y = None /\ s \in SeqU /\ done = FALSE
 EvalIn == done = FALSE /\ done' = TRUE /\ UNCHANGED <<x, y, s>>
 PinIn(u, q) == IF \E i \in 1..Len(q) : PinC(u, q[i]) = "T" /\ \A j \in 1..(i - 1) : PinC(u, q[j]) = "F" THEN "T"
